@@ -13,6 +13,7 @@ import (
 	"fmt"
 	"io"
 	"net"
+	"os"
 	"sort"
 	"sync"
 	"sync/atomic"
@@ -60,11 +61,14 @@ func newEnv(run *verdict.Run, be *rig.Backend, th, ti time.Duration, faults func
 }
 
 // find the accounting record of the connection whose peer is local.
-func (e *env) find(local net.Addr, timeout time.Duration) *rig.AcctConn {
+// since is a time before the client dialled: a source port may have been used by an earlier,
+// finished connection, whose record must not be taken for this one.
+func (e *env) find(local net.Addr, since time.Time, timeout time.Duration) *rig.AcctConn {
 	deadline := time.Now().Add(timeout)
 	for {
-		for _, c := range e.acct.Conns() {
-			if c.Conn.RemoteAddr().String() == local.String() {
+		cs := e.acct.Conns()
+		for i := len(cs) - 1; i >= 0; i-- {
+			if c := cs[i]; !c.AcceptAt.Before(since) && c.Conn.RemoteAddr().String() == local.String() {
 				return c
 			}
 		}
@@ -162,6 +166,16 @@ func main() {
 	if run.Thorough() {
 		grid = [][2]time.Duration{{150 * time.Millisecond, 900 * time.Millisecond}, {400 * time.Millisecond, 300 * time.Millisecond}, {900 * time.Millisecond, 150 * time.Millisecond}}
 	}
+	if n := os.Getenv("VERIF_C11_REPEAT_TIMEOUTS"); n != "" { // debugging aid: only the timer scenarios, repeated; never a pass
+		reps := 1
+		fmt.Sscan(n, &reps)
+		e := newEnv(run, be, 400*time.Millisecond, 300*time.Millisecond, nil)
+		for i := 0; i < reps; i++ {
+			e.timeouts()
+		}
+		run.Inconclusive("debug mode VERIF_C11_REPEAT_TIMEOUTS")
+		run.Finish()
+	}
 	for gi, g := range grid {
 		e := newEnv(run, be, g[0], g[1], nil)
 		e.timeouts()
@@ -253,6 +267,7 @@ func (e *env) aborts() {
 					defer wg.Done()
 					defer func() { <-sem }()
 					sc := scen{Kind: "abort", Proto: proto, Offset: k, RST: rst, Env: e.name}
+					dialAt := time.Now()
 					c, err := dialTCP(e.px.Addr)
 					if err != nil {
 						return
@@ -265,7 +280,7 @@ func (e *env) aborts() {
 						session(cc, proto, fmt.Sprintf("C11-ab-%s-%d-%v", proto, k, rst))
 						cc.doCut()
 					}
-					ac := e.find(local, W)
+					ac := e.find(local, dialAt, W)
 					run.Eval(1)
 					run.Add("scenarios_abort", 1)
 					run.Distinct(fmt.Sprintf("%+v", sc))
@@ -311,6 +326,7 @@ func (e *env) stallsThenClose() {
 			go func(stepName string, rep int) {
 				defer wg.Done()
 				sc := scen{Kind: "stall-then-close", Step: stepName, RST: rep%2 == 1, Env: e.name}
+				dialAt := time.Now()
 				c, err := dialTCP(e.px.Addr)
 				if err != nil {
 					return
@@ -323,7 +339,7 @@ func (e *env) stallsThenClose() {
 				}
 				cut := time.Now()
 				c.Close()
-				ac := e.find(local, W)
+				ac := e.find(local, dialAt, W)
 				run.Eval(1)
 				run.Add("scenarios_stall_then_close", 1)
 				run.Distinct(fmt.Sprintf("%+v", sc))
@@ -410,16 +426,39 @@ func (e *env) timeouts() {
 			wg.Add(1)
 			go func(step string) {
 				defer wg.Done()
+				dialAt := time.Now()
 				c, err := dialTCP(e.px.Addr)
 				if err != nil {
 					return
 				}
 				from := time.Now()
 				stallAt(c, step, nil)
-				add(&obs{sc: scen{Kind: "handshake-timeout", Step: step, Env: e.name}, T: e.th, from: from, ac: e.find(c.LocalAddr(), W), c: c})
+				add(&obs{sc: scen{Kind: "handshake-timeout", Step: step, Env: e.name}, T: e.th, from: from, ac: e.find(c.LocalAddr(), dialAt, W), c: c})
 			}(step)
 		}
 	}
+	// HTTP/2 clients that finish the handshake and then stay silent before / inside / after the client
+	// preface: the two fixed upstream timers (10 s preface, 2 s first SETTINGS) must cut them, and
+	// everything serving them must end (the client never leaves by itself)
+	for _, st := range []struct {
+		step string
+		T    time.Duration
+	}{{"after-handshake-h2", 10 * time.Second}, {"mid-preface-h2", 10 * time.Second}, {"after-preface-h2", 2 * time.Second}} {
+		for rep := 0; rep < run.Pick(2, 4); rep++ {
+			wg.Add(1)
+			go func(step string, T time.Duration) {
+				defer wg.Done()
+				dialAt := time.Now()
+				c, err := dialTCP(e.px.Addr)
+				if err != nil {
+					return
+				}
+				stallAt(c, step, nil)
+				add(&obs{sc: scen{Kind: "fixed-h2-timer", Step: step, Env: e.name}, T: T, from: time.Now(), ac: e.find(c.LocalAddr(), dialAt, W), c: c})
+			}(st.step, st.T)
+		}
+	}
+
 	// what the client does last before it goes silent (after at least one served request)
 	lastActs := map[string][]string{
 		"http/1.1": {"request"},
@@ -431,6 +470,7 @@ func (e *env) timeouts() {
 				wg.Add(1)
 				go func(proto string, rep int, act string) {
 					defer wg.Done()
+					dialAt := time.Now()
 					s, err := rig.Dial(e.px.Addr, []string{proto}, nil, nil)
 					if err != nil {
 						return
@@ -470,7 +510,7 @@ func (e *env) timeouts() {
 						s.Peer.Fence(10 * time.Second) // the server has reacted to everything sent so far
 					}
 					from := time.Now()
-					add(&obs{sc: scen{Kind: "idle-timeout", Proto: proto, Step: "last client action: " + act, Env: e.name}, T: e.ti, from: from, lo: served, ac: e.find(s.Rec.Conn.LocalAddr(), W), c: s.TLS})
+					add(&obs{sc: scen{Kind: "idle-timeout", Proto: proto, Step: "last client action: " + act, Env: e.name}, T: e.ti, from: from, lo: served, ac: e.find(s.Rec.Conn.LocalAddr(), dialAt, W), c: s.TLS})
 				}(proto, rep, act)
 			}
 		}
@@ -484,6 +524,12 @@ func (e *env) timeouts() {
 		upper := o.T + max(3*time.Second, 3*o.T)
 		run.Eval(1)
 		run.Distinct(fmt.Sprintf("%+v", o.sc))
+		// wait up to the bound, then look at Done alone: a select over an already closed Done and
+		// an already expired timer picks either
+		select {
+		case <-o.ac.Done:
+		case <-time.After(time.Until(o.from.Add(upper))):
+		}
 		select {
 		case <-o.ac.Done:
 			d := o.ac.ClosedAt.Sub(o.from)
@@ -491,13 +537,13 @@ func (e *env) timeouts() {
 				d = o.ac.ClosedAt.Sub(o.lo) // "not too early" is measured from the last served request
 			}
 			run.Add("timeouts_judged", 1)
-			if d < o.T*8/10 {
+			if d < o.T*8/10 && o.sc.Kind != "fixed-h2-timer" { // the fixed upstream timers are upper bounds: the configured idle timer may cut earlier
 				run.Violation("closed-too-early", o.sc, "%s (%s %s): closed after %v although the timeout is %v", o.sc.Kind, o.sc.Proto, o.sc.Step, d, o.T)
 			}
 			if run.WantSample() {
 				run.Sample(map[string]any{"scenario": o.sc, "timeout_ms": o.T.Milliseconds(), "closed_after_ms": d.Milliseconds()})
 			}
-		case <-time.After(time.Until(o.from.Add(upper))):
+		default:
 			cl := "handshake-timeout-not-enforced"
 			if o.sc.Kind == "idle-timeout" {
 				cl = "idle-timeout-not-enforced-" + o.sc.Proto
@@ -521,6 +567,7 @@ func faults(run *verdict.Run, be *rig.Backend) {
 	defer e.px.Stop()
 	for _, proto := range []string{"http/1.1", "h2"} {
 		// reference: number of server-side I/O operations of a full session
+		dialAt := time.Now()
 		c, err := dialTCP(e.px.Addr)
 		if err != nil {
 			return
@@ -528,7 +575,7 @@ func faults(run *verdict.Run, be *rig.Backend) {
 		local := c.LocalAddr()
 		session(c, proto, "C11-faultref-"+proto)
 		c.Close()
-		ac := e.find(local, W)
+		ac := e.find(local, dialAt, W)
 		if ac == nil {
 			run.Inconclusive("fault reference connection not found")
 			return
@@ -552,6 +599,7 @@ func faults(run *verdict.Run, be *rig.Backend) {
 					d := net.Dialer{Timeout: 10 * time.Second}
 					// reserve the address first so that the plan is in place before Accept sees the conn
 					planMu.Lock()
+					dialAt := time.Now()
 					c, err := d.Dial("tcp", e.px.Addr)
 					if err != nil {
 						planMu.Unlock()
@@ -562,7 +610,7 @@ func faults(run *verdict.Run, be *rig.Backend) {
 					local := c.LocalAddr()
 					done := make(chan struct{})
 					go func() { session(c, proto, fmt.Sprintf("C11-f-%s-%d-%s", proto, op, kind)); close(done) }()
-					ac := e.find(local, W)
+					ac := e.find(local, dialAt, W)
 					run.Eval(1)
 					run.Add("scenarios_fault", 1)
 					run.Distinct(fmt.Sprintf("%+v", sc))
